@@ -117,6 +117,7 @@ type registryState struct {
 	failSinceServe bool // a catalog lookup failed since the last health answer was served
 	roundClean     bool // the configuration the service watcher delivered last was built without a failed lookup
 	faultsSeen     int  // number of injected 500 answers so far
+	catServed      int  // catalog lookups answered (200) so far
 }
 
 func newRegistry(kvPath string) *registryState {
@@ -440,6 +441,7 @@ func (r *registryState) ServeHTTP(w http.ResponseWriter, req *http.Request) {
 			out = append(out, cs{Node: i.Node, Address: i.Addr, ServiceID: i.SID, ServiceName: i.Name, ServiceAddress: i.SAddr, ServicePort: i.Port, ServiceTags: i.Tags})
 		}
 		idx := r.hIndex
+		r.catServed++
 		r.mu.Unlock()
 		r.header(w, idx)
 		json.NewEncoder(w).Encode(out)
